@@ -14,9 +14,11 @@ positional part of sequences).
 
 The pinned tree has rewrite rules that are *not* meaning preserving and that its test-suite pins
 (findings/C15.json): the main theorem is therefore `normalize_sat_partial`, under the decidable
-hypothesis `WM.Clean.clean q` that excludes exactly those rules and `Doc.Plain` that excludes the
-two odd kinds of terms; the full statement is kept as `normalize_sat_full` and refuted below on a
-concrete witness per recorded defect.
+hypothesis `WM.Clean.clean q` that excludes exactly those rules, `Doc.BelowMax` (no term at or above
+`u"￿"`) and `EOk env q`: the tree has no `TermRange` with an exclusive open/empty start where a
+rewrite touches it (`WM.Clean.emptyOk`), *or* no document holds the empty term.  (`WM.Sat.sat` reads
+the multi-term leaves as the repaired `MultiTerm.matcher` does: the empty term counts.)  The full
+statement is kept as `normalize_sat_full` and refuted below on a concrete witness per recorded defect.
 -/
 namespace WM.C15
 open WM.Normalize WM.Sat WM.Clean
@@ -25,18 +27,38 @@ open WM.Normalize WM.Sat WM.Clean
 
 /-- `normalize()` keeps the set of matching documents, on every index of plain documents, for every
     tree that does not run into one of the recorded defects. -/
-theorem normalize_sat_partial (env : Env) (q : Q) (hq : clean q = true)
-    (hidx : ∀ d ∈ env.index, d.Plain) (d : Doc) (hd : d ∈ env.index) :
+theorem normalize_sat_partial (env : Env) (q : Q) (hq : clean q = true) (he : EOk env q)
+    (hidx : ∀ d ∈ env.index, d.BelowMax) (d : Doc) (hd : d ∈ env.index) :
     sat env (normalize q) d = sat env q d :=
-  normalize_sat_aux env hidx q hq d hd
+  normalize_sat_aux env hidx q hq he d hd
 
 /-- Consequence for whole answers. -/
-theorem normalize_answer_partial (env : Env) (q : Q) (hq : clean q = true)
-    (hidx : ∀ d ∈ env.index, d.Plain) : answer env (normalize q) = answer env q := by
+theorem normalize_answer_partial (env : Env) (q : Q) (hq : clean q = true) (he : EOk env q)
+    (hidx : ∀ d ∈ env.index, d.BelowMax) : answer env (normalize q) = answer env q := by
   unfold answer
   congr 1
   apply List.filter_congr
-  exact fun d hd => normalize_sat_partial env q hq hidx d hd
+  exact fun d hd => normalize_sat_partial env q hq he hidx d hd
+
+/-- The form of round 1/2: on an index of plain documents (no empty term, nothing at or above `u"￿"`)
+    every clean tree keeps its meaning, exclusive open starts included. -/
+theorem normalize_sat_plain (env : Env) (q : Q) (hq : clean q = true)
+    (hidx : ∀ d ∈ env.index, d.Plain) (d : Doc) (hd : d ∈ env.index) :
+    sat env (normalize q) d = sat env q d :=
+  normalize_sat_aux env (fun d hd => (hidx d hd).belowMax) q hq (Or.inr fun d hd => (hidx d hd).noEmpty) d hd
+
+/-- On an index that holds the empty term: ranges with inclusive or non-empty starts are merged, turned
+    into `Every(f)`/`Term` and de-duplicated without changing the answer (document 0 has the empty
+    term in field 0, document 1 the term `b`). -/
+example :
+    let envE : Env := { env0 with index := [doc 0 [[]], doc 1 [[98]]] }
+    let q : Q := .comp .or [.range 0 none (some [97]) false false 1 true, .range 0 (some []) none false false 2 true,
+      .wild 0 [] 1 true, .range 0 (some [97]) (some [99]) true false 1 true] 1
+    clean q = true ∧ emptyOk q = true ∧ normalize q = .every (some 0) 2
+      ∧ answer envE q = [0, 1] ∧ answer envE (normalize q) = [0, 1]
+      ∧ answer envE (.wild 0 [] 1 true) = [0] ∧ answer envE (.pre 0 [] 1 true) = [0, 1] := by
+  refine ⟨by decide +kernel, by decide +kernel, by decide +kernel, by decide +kernel, by decide +kernel,
+    by decide +kernel, by decide +kernel⟩
 
 /-- The statement of the property, at full strength.  It is false for the pinned tree. -/
 def normalize_sat_full : Prop :=
@@ -95,17 +117,39 @@ theorem not_normalize_sat_full : ¬ normalize_sat_full := by
   revert this
   decide +kernel
 
-/-- The two odd kinds of terms: on a document whose field holds the empty term, or a term at or
-    above `u"￿"`, `TermRange.normalize` changes the answer (so `Doc.Plain` cannot be dropped). -/
-theorem defect_odd_terms :
-    let envE : Env := { env0 with index := [doc 0 [[]]] }
-    let envA : Env := { env0 with index := [doc 0 [[0x1F600]]] }
-    let q1 : Q := .range 0 none none false false 1 true
-    let q2 : Q := .range 0 none (some maxText) false false 1 true
-    normalize q1 = .every (some 0) 1 ∧ answer envE q1 = [] ∧ answer envE (normalize q1) = [0]
-      ∧ normalize q2 = .every (some 0) 1 ∧ answer envA q2 = [] ∧ answer envA (normalize q2) = [0] := by
+/-- What is still false about odd terms.  (1) A `TermRange` with an *exclusive* open start leaves the
+    empty term out (`TermRange._btexts` skips a first term equal to the start `b""`), `TermRange.normalize`
+    turns it into `Every(f)`, which does not: `emptyOk` cannot be dropped on an index that holds the empty
+    term.  The same range with an inclusive start is fine.  (2) A term at or above `u"￿"` is outside
+    `[... TO u"￿"]` but inside the `Every(f)` that `normalize` makes of it: `Doc.BelowMax` cannot be
+    dropped. -/
+theorem defect_open_excl_start :
+    let envE : Env := { env0 with index := [doc 0 [[]], doc 1 [[98]]] }
+    let q1 : Q := .range 0 none none true false 1 true
+    let q1' : Q := .range 0 (some []) (some maxText) true false 1 true
+    clean q1 = true ∧ emptyOk q1 = false ∧ emptyOk q1' = false
+      ∧ normalize q1 = .every (some 0) 1 ∧ answer envE q1 = [1] ∧ answer envE (normalize q1) = [0, 1]
+      ∧ normalize q1' = .every (some 0) 1 ∧ answer envE q1' = [1]
+      ∧ emptyOk (.range 0 none none false false 1 true) = true
+      ∧ answer envE (.range 0 none none false false 1 true) = [0, 1] := by
   refine ⟨by decide +kernel, by decide +kernel, by decide +kernel, by decide +kernel, by decide +kernel,
-    by decide +kernel⟩
+    by decide +kernel, by decide +kernel, by decide +kernel, by decide +kernel, by decide +kernel⟩
+
+/-- The merging loop has the same blind spot: the comparable of an open start is `(Lowest, 0)` whether
+    exclusive or not, so `Or([{ TO a], [b TO c]])`-like unions forget the exclusion. -/
+example :
+    let envE : Env := { env0 with index := [doc 0 [[]], doc 1 [[98]]] }
+    let q : Q := .comp .or [.range 0 none (some [98]) true false 1 true, .range 0 (some [97]) (some [99]) false false 1 true] 1
+    clean q = true ∧ emptyOk q = false ∧ normalize q = .range 0 none (some [99]) false false 1 true
+      ∧ answer envE q = [1] ∧ answer envE (normalize q) = [0, 1] := by
+  refine ⟨by decide +kernel, by decide +kernel, by decide +kernel, by decide +kernel, by decide +kernel⟩
+
+theorem defect_odd_terms :
+    let envA : Env := { env0 with index := [doc 0 [[0x1F600]]] }
+    let q2 : Q := .range 0 none (some maxText) false false 1 true
+    emptyOk q2 = true ∧ normalize q2 = .every (some 0) 1 ∧ answer envA q2 = []
+      ∧ answer envA (normalize q2) = [0] := by
+  refine ⟨by decide +kernel, by decide +kernel, by decide +kernel, by decide +kernel⟩
 
 /-- `normalize` is total (a structurally / well-founded recursive function, no fuel) and its results
     have the shape the rewrite promises: a compound has at least two clauses and its `TermRange`
@@ -210,26 +254,26 @@ example : (Q.bin .andnot (.comp .or [.term 0 [97] 1] 2) (.term 0 [98] 1)).withBo
 
 /-- `a & b` means conjunction (when the `And` it normalizes is clean). -/
 theorem ops_and_partial (env : Env) (a b : Q) (h : clean (.comp .and [a, b] 1) = true)
-    (hidx : ∀ d ∈ env.index, d.Plain) (d : Doc) (hd : d ∈ env.index) :
+    (he : EOk env (.comp .and [a, b] 1)) (hidx : ∀ d ∈ env.index, d.BelowMax) (d : Doc) (hd : d ∈ env.index) :
     sat env (opAnd a b) d = (sat env a d && sat env b d) := by
   unfold opAnd
-  rw [normalize_sat_aux env hidx _ h d hd]
+  rw [normalize_sat_aux env hidx _ h he d hd]
   simp [sat, satAll]
 
 /-- `a | b` means disjunction (when `a` and `b` are clean). -/
 theorem ops_or_partial (env : Env) (a b : Q) (h : clean (.comp .or [a, b] 1) = true)
-    (hidx : ∀ d ∈ env.index, d.Plain) (d : Doc) (hd : d ∈ env.index) :
+    (he : EOk env (.comp .or [a, b] 1)) (hidx : ∀ d ∈ env.index, d.BelowMax) (d : Doc) (hd : d ∈ env.index) :
     sat env (opOr a b) d = (sat env a d || sat env b d) := by
   unfold opOr
-  rw [normalize_sat_aux env hidx _ h d hd]
+  rw [normalize_sat_aux env hidx _ h he d hd]
   simp [sat, satAny]
 
 /-- `a - b` means `a` and not `b` (when the `And([a, Not(b)])` it normalizes is clean). -/
 theorem ops_sub_partial (env : Env) (a b : Q) (h : clean (.comp .and [a, .not b 1] 1) = true)
-    (hidx : ∀ d ∈ env.index, d.Plain) (d : Doc) (hd : d ∈ env.index) :
+    (he : EOk env (.comp .and [a, .not b 1] 1)) (hidx : ∀ d ∈ env.index, d.BelowMax) (d : Doc) (hd : d ∈ env.index) :
     sat env (opSub a b) d = (sat env a d && !sat env b d) := by
   unfold opSub
-  rw [normalize_sat_aux env hidx _ h d hd]
+  rw [normalize_sat_aux env hidx _ h he d hd]
   simp [sat, satAll]
 
 def ops_full : Prop :=
@@ -324,10 +368,10 @@ example :
 /-- `simplify(reader)` means the same as the query on the index the reader describes (when none of
     the trees it hands to `normalize()` runs into a recorded defect: `WM.Clean.cleanS`). -/
 theorem simplify_sat_partial (env : Env) (rd : Reader) (q : Q) (hrd : ReaderOk env rd)
-    (hq : cleanS env.multi env.bracket rd q = true) (hidx : ∀ d ∈ env.index, d.Plain)
-    (d : Doc) (hd : d ∈ env.index) :
+    (hq : cleanS env.multi env.bracket rd q = true) (he : EOkS env rd q)
+    (hidx : ∀ d ∈ env.index, d.BelowMax) (d : Doc) (hd : d ∈ env.index) :
     sat env (simplify env.multi env.bracket rd q) d = sat env q d :=
-  simplify_sat_aux env rd hrd hidx q hq d hd
+  simplify_sat_aux env rd hrd hidx q hq he d hd
 
 def simplify_sat_full : Prop :=
   ∀ (env : Env) (rd : Reader) (q : Q), ReaderOk env rd → ∀ d ∈ env.index,
